@@ -5,7 +5,8 @@ _HIST_RULE = (
     "histories of 10-40 (thorough: 10-80) steps over up to 3 pools (btc, eth, usdt against stake) by 3 users and a "
     "separate recipient: swaps (sell/buy, single/double hop, recipient = / != sender), two-sided and one-sided "
     "add/remove, donations and transfers (bank MsgSend, also of LPT and to not-yet-created pool addresses), swap "
-    "recipients that are pool escrow addresses, MsgUpdateParams in mid-history (authority / strangers / out-of-range values), block "
+    "recipients that are pool escrow addresses, donations of UNRELATED denoms to pool addresses followed by one-sided add/remove, "
+    "two-sided add or swaps naming a denom the pool does not trade, MsgUpdateParams in mid-history (authority / strangers / out-of-range values), block "
     "boundaries; per-history module parameters (fee, one-sided fee, tax, creation fee incl. boundary values); "
     "amounts of a per-history magnitude class up to 2^128, chosen relative to the real reserves; bounds at exact, "
     "exact+-1, loose; deadlines at now, now-1, 0; ~10% malformed or refused messages; "
